@@ -311,10 +311,10 @@ pub fn def_b() -> CheckDef {
         id: "C13b",
         title: "Isolation: the outcome does not depend on how client threads interleave with the engine's thread (layer 2)",
         case: case_b,
-        rule: "case = generated model with parallel structure (multi-branch steps, block/parallel/sequence acts) x scripted client (complete / skip / abort / error / submit / remove) played by 1..3 virtual client threads that answer every interrupt as soon as its message has been delivered, while the executor runs as one more virtual thread (in a third of the cases the process first reaches its interrupts at a quiescent point and is dropped from the cache, so that the threads have to bring it back from the store; in a sixth two further threads start a process with one and the same pid at the same moment - exactly one call is accepted): the baton moves at intercepted engine lock acquisitions (preemption probability 1% / 10% / 50%), so a client action lands in the middle of the scheduler's work on the same process (between a check and the lock, between two queued siblings) x seeded baton choices. Judged by the invariants that hold for every interleaving: no terminal task state is rewritten and stages only move forward (C02's monitor), at most one terminal message per task and stream/trace agreement (C08's monitor), nothing open beneath a completed task and one terminal event at the final quiescent point (C03's oracle), no deadlock of the engine on its own locks, no panic. non-trivial = a client call overlapped engine work (a baton switch inside a client call) and at least one non-complete action was accepted; distinct = distinct (scenario hash, schedule hash)",
+        rule: "case = generated model with parallel structure (multi-branch steps, block/parallel/sequence acts) x scripted client (complete / skip / abort / error / submit / remove) played by 1..3 virtual client threads that answer every interrupt as soon as its message has been delivered, while the executor runs as one more virtual thread (in a third of the cases the process first reaches its interrupts at a quiescent point and is dropped from the cache, so that the threads have to bring it back from the store; in a sixth two further threads start a process with one and the same pid at the same moment - exactly one call is accepted): the baton moves at intercepted engine lock acquisitions (preemption probability 1% / 10% / 50%), so a client action lands in the middle of the scheduler's work on the same process (between a check and the lock, between two queued siblings) x seeded baton choices. Judged by the invariants that hold for every interleaving: no terminal task state is rewritten and stages only move forward (C02's monitor), at most one terminal message per task and stream/trace agreement (C08's monitor), nothing open beneath a completed task and one terminal event at the final quiescent point (C03's oracle), no deadlock of the engine on its own locks, no panic; with the default retention (half of the cases) a process that has delivered its terminal event has no row left at the final quiescent point. non-trivial = a client call overlapped engine work (a baton switch inside a client call) and at least one non-complete action was accepted; distinct = distinct (scenario hash, schedule hash)",
         level: "exploration",
         assumptions: &["preemption happens at engine lock acquisitions (all shared engine state is behind these locks)", "virtual threads are real OS threads released one at a time; the interleaving is the decision trace", "monotone simulated clock"],
-        probes: &["probe.switch_inside_client_call", "probe.forced_switch", "probe.three_client_threads", "probe.non_complete_action_accepted", "probe.action_while_tasks_queued", "probe.evicted_before_the_threads", "probe.racing_duplicate_start"],
+        probes: &["probe.switch_inside_client_call", "probe.forced_switch", "probe.three_client_threads", "probe.non_complete_action_accepted", "probe.action_while_tasks_queued", "probe.evicted_before_the_threads", "probe.racing_duplicate_start", "probe.default_retention"],
         quick_cases: 3000,
         no_shrink: &[],
     }
@@ -325,7 +325,9 @@ pub fn case_b(ctx: &mut CaseCtx) -> CaseOut {
         let opts = LifeOpts { catches: rng.below(4) == 0, scripted_actions: &["skip", "skip", "abort", "error", "submit", "remove", "complete"], p_scripted: *rng.pick(&[300, 500, 700]), adversary: None, dup: rng.below(3) == 0, generators: true, hooks: false, outputs: false, drop_outputs: false };
         let mut sc = gen_lifecycle(rng, &opts);
         sc.client.mode = "sequential".into();
-        sc.engine.keep_processes = true;
+        // default retention in half of the cases: the process and its rows are removed when it ends, while client
+        // threads may still be acting on it
+        sc.engine.keep_processes = rng.below(2) == 0;
         sc.knobs = random_knobs(rng);
         // number of client threads and preemption rate travel in the scenario (replays)
         sc.max_ops = 1 + rng.below(3) as u32;
@@ -335,6 +337,11 @@ pub fn case_b(ctx: &mut CaseCtx) -> CaseOut {
             2 => 2,
             _ => 0,
         };
+        if sc.ticks == 2 {
+            // racing starts of one pid are judged while the first process is kept (with the default retention the pid
+            // is free again once that process has ended)
+            sc.engine.keep_processes = true;
+        }
         sc.capture = true;
         sc
     });
@@ -491,8 +498,24 @@ pub fn case_b(ctx: &mut CaseCtx) -> CaseOut {
     if racing_start {
         let oks = start_results.lock().unwrap().iter().filter(|x| **x).count();
         let started = rec.msgs.iter().filter(|m| m.via == "start" && m.pid == "dup").count();
-        if oks != 1 || started > 1 {
+        // with the default retention the pid is free again as soon as the first `dup` process has ended and is
+        // removed: a second accepted start is then no duplicate
+        let first_ended = rec.msgs.iter().any(|m| (m.via == "complete" || m.via == "error") && m.pid == "dup");
+        if (oks != 1 || started > 1) && !(first_ended && !sc.engine.keep_processes) {
             v.push(Violation::new("C13", "racing_duplicate_start", json!({"accepted": oks.min(3), "start_events": started.min(3)}), format!("two client threads started a process with the pid `dup` at the same moment: {} calls were accepted and {} start events were delivered (one of each is right)", oks, started)));
+        }
+    }
+    // default retention: a process that has delivered its terminal event leaves no row behind, whatever the client
+    // threads were doing while it ended
+    if v.is_empty() && !sc.engine.keep_processes {
+        ctx.count("probe.default_retention", 1);
+        if let Some(q) = rec.qpoints.last() {
+            for end in rec.msgs.iter().filter(|m| m.via == "complete" || m.via == "error") {
+                if let Some(p) = q.rows.iter().find(|p| p.pid == end.pid) {
+                    v.push(Violation::new("C13", "rows_left_after_end_under_threads", json!({"ending": end.state, "task_rows": p.tasks.len().min(9) > 0}), format!("process {} delivered its terminal event ({}) while client threads were acting; at the final quiescent point the store still holds its process row (state {}) and {} task rows", end.pid, end.state, p.state, p.tasks.len())));
+                    break;
+                }
+            }
         }
     }
     for (name, found) in [("task_lifecycle", super::c02::lifecycle_oracle(&sc, &rec)), ("message_stream", super::c08::stream_oracle(&sc, &rec)), ("hierarchy", super::c03::hierarchy_oracle(&sc, &rec))] {
